@@ -43,16 +43,21 @@ def strategy(draw, tier="quick"):
     init = draw(st.one_of(st.just(-1), st.just(-1), st.integers(0, full), st.just(0), st.just(full)))
     hi = 50 if tier == "quick" else 160
     methods = {f"alloc{i}": [] for i in range(aw)}
+    # in one case of three, alloc way 0 has a second, independent caller (io "alloc0_b"): an alloc way is an exclusive
+    # method, two simultaneous callers must not both be served (they would receive the same identifier)
+    second = draw(st.integers(0, 2)) == 0
+    if second:
+        methods["alloc0_b"] = []
     methods.update({f"free{i}": [256] for i in range(fw)})
     methods.update({"peek": [], "replace": [full + 1, 6], "clear": [6]})
-    ways = lambda a, f: {**{f"alloc{i}": a for i in range(aw)}, **{f"free{i}": f for i in range(fw)}}  # noqa: E731
+    ways = lambda a, f: {**{f"alloc{i}": a for i in range(aw)}, **({"alloc0_b": a} if second else {}), **{f"free{i}": f for i in range(fw)}}  # noqa: E731
     profiles = {
         "fill": {**ways(6, 1), "peek": 6},
         "churn": {**ways(6, 4), "peek": 6, "replace": 2, "clear": 2},
         "drain": {**ways(2, 6), "peek": 6, "replace": 1, "clear": 1},
     }
     hist = draw(phased_history(methods, profiles, 8, hi))
-    return {"entries": entries, "alloc_ways": aw, "free_ways": fw, "init": init, "history": hist}
+    return {"entries": entries, "alloc_ways": aw, "free_ways": fw, "init": init, "second": second, "history": hist}
 
 
 def run_case(case) -> Result:
@@ -62,14 +67,15 @@ def run_case(case) -> Result:
     full = (1 << E) - 1
     init_mask = init & full
     res = Result(labels=[f"ways{aw}", "init_default" if init == -1 else "init_mask"])
-    h = Harness(lambda: PriorityEncoderAllocator(E, aw, fw, init=init))
+    second = bool(case.get("second"))
+    h = Harness(lambda: PriorityEncoderAllocator(E, aw, fw, init=init), second_callers=("alloc0",) if second else ())
     flags = dict(
         scarce=False, exhausted=False, reuse=False, multi_alloc=False, multi_free=False, alloc_and_free=False,
         replace=False, clear=False, clear_vs_replace=False, higher_way_alone=False,
     )
 
     async def tb(ctx):
-        ios = h.ios(["alloc", "free", "peek", "replace", "clear"])
+        ios = h.ios(["alloc", "free", "peek", "replace", "clear"] + (["alloc0_b"] if second else []))
         free = init_mask
         freed_once = 0  # identifiers that were returned through free at some point and are free now
         for cyc, rec in enumerate(case["history"]):
@@ -78,6 +84,8 @@ def run_case(case) -> Result:
             for i in range(aw):
                 if rec.get(f"alloc{i}") is not None:
                     reqs[f"alloc{i}"] = {}
+            if second and rec.get("alloc0_b") is not None:
+                reqs["alloc0_b"] = {}
             cand = [k for k in range(E) if not (free >> k) & 1]
             for i in range(fw):
                 a = rec.get(f"free{i}")
@@ -99,6 +107,24 @@ def run_case(case) -> Result:
             for nm, r in results.items():
                 if r is not None and nm not in reqs:
                     return res.fail(f"{where}: {nm} ran without being requested")
+            # two callers of alloc way 0: exactly one of the requesters is served when the way is ready
+            if second:
+                req0 = [c for c in ("alloc0", "alloc0_b") if c in reqs]
+                acc0 = [c for c in req0 if results[c] is not None]
+                want = min(1, len(req0)) if nfree >= 1 else 0
+                if len(acc0) != want:
+                    return res.fail(
+                        f"{where}: callers {req0} request alloc way 0 with {nfree} free identifiers: {len(acc0)} calls "
+                        f"accepted {acc0}, an exclusive method serves exactly {want}"
+                    )
+                if len(req0) == 2:
+                    flags["two_callers_contend"] = True
+                # from here on way 0 is judged through whichever caller was served
+                if req0:
+                    reqs["alloc0"] = {}
+                    results["alloc0"] = results[acc0[0]] if acc0 else None
+                reqs.pop("alloc0_b", None)
+                results.pop("alloc0_b", None)
             # alloc ways
             got = []
             n_req = sum(1 for i in range(aw) if f"alloc{i}" in reqs)
